@@ -385,6 +385,27 @@ def kinds : List KindSpec := [
 
 def findKind (name : String) : Option KindSpec := kinds.find? (·.name == name)
 
+/-! ### A name carrying declarations of different kinds
+
+The declaration kinds of a general scope are swept a second time as the declaration that comes SECOND under its name, after
+a declaration of another kind (and type) took that name: `X#after-Y`.  What was declared earlier under the name is not an
+operand of the node and fills in none of its links, so the specification of `X#after-Y` is the specification of `X` — the
+very `KindSpec` of the table (to which the theorems of IprProps/C14.lean apply), under another name. -/
+
+/-- The declaration kinds `Scope::make_*` produces (src/impl.cxx:1497-1636). -/
+def declKindNames : List String := ["Alias", "Var", "Field", "Bitfield", "Typedecl", "Fundecl", "Template", "Template#secondary"]
+
+/-- `X#after-Y` for every ordered pair of distinct declaration kinds, each with the rows of `X`. -/
+def afterKinds : List KindSpec :=
+  declKindNames.flatMap (fun x => match findKind x with
+    | none => []
+    | some k => (declKindNames.filter (· != x)).map (fun y => { k with name := x ++ "#after-" ++ y }))
+
+/-- Everything the sweep visits: the table, then the second-under-a-name variants. -/
+def sweptKinds : List KindSpec := kinds ++ afterKinds
+
+def findSwept (name : String) : Option KindSpec := sweptKinds.find? (·.name == name)
+
 /-- Table hygiene checked by `decide` in the property file: every row reads a declared link and gives an outcome for every
     state code of it; link names and accessor names are unambiguous. -/
 def Sem.wellFormed (k : KindSpec) : Sem → Bool
